@@ -1015,7 +1015,7 @@ func linesOf(b []byte) int { return strings.Count(string(b), "\n") }
 
 func init() {
 	Register(&Check{ID: "C19", Level: "exploration",
-		Rule: "one case = one bundled component in a small tape-generated harness workflow under one tape-chosen schedule (incl. map-iteration order, which decides the combinators' 'head' port): FileCombinator / ParamCombinator with 1..4 ports and stream lengths 0..4 (independent upstreams; or one shared upstream with length <= bufsize) feeding a consuming zip process - every element of the Cartesian product exactly once, ports aligned; IPSelectorSync with 1..4 aligned ports and a tape-chosen predicate mask - exactly the all-true tuples; FileSplitter (files of 0..7 lines, 1..3 lines per split) - recorded parts concatenate to the input, no part longer than the limit; Concatenator (inputs of a few bytes up to 2 MiB + remainder, around common copy-buffer sizes) - output = inputs in recorded arrival order, each followed by newline (also with GroupByTag: one output per group value, and with something already at the output path); FileGlobber over a generated tree vs an independent glob evaluation; FileToParamsReader / CommandToParams / FileSource / ParamSource - exactly the given items in order. Round 5: mixed tagged/untagged Concatenator inputs; FileGlobber emission order with 1-3 patterns; FileCombinator arrival order. Round 6: a FileSource path that names no file must not be left out silently. Round 7: large splitter inputs; the globber's second round; a ParamCombinator whose ports share one source. distinct = event-log hash; non-trivial = >=2 tasks, >=1 non-default choice",
+		Rule: "one case = one bundled component in a small tape-generated harness workflow under one tape-chosen schedule (incl. map-iteration order, which decides the combinators' 'head' port): FileCombinator / ParamCombinator with 1..4 ports and stream lengths 0..4 (independent upstreams; or one shared upstream with length <= bufsize) feeding a consuming zip process - every element of the Cartesian product exactly once, ports aligned; IPSelectorSync with 1..4 aligned ports and a tape-chosen predicate mask - exactly the all-true tuples; FileSplitter (files of 0..7 lines, 1..3 lines per split) - recorded parts concatenate to the input, no part longer than the limit; Concatenator (inputs of a few bytes up to 2 MiB + remainder, around common copy-buffer sizes) - output = inputs in recorded arrival order, each followed by newline (also with GroupByTag: one output per group value, and with something already at the output path); FileGlobber over a generated tree vs an independent glob evaluation; FileToParamsReader / CommandToParams / FileSource / ParamSource - exactly the given items in order. Round 5: mixed tagged/untagged Concatenator inputs; FileGlobber emission order with 1-3 patterns; FileCombinator arrival order. Round 6: a FileSource path that names no file must not be left out silently. Round 7: large splitter inputs; the globber's second round; a ParamCombinator whose ports share one source. Round 8: overlapping FileGlobber patterns (tagging consumer). distinct = event-log hash; non-trivial = >=2 tasks, >=1 non-default choice",
 		Run: func(c *Case) Verdict {
 			w, kind := componentCase(c)
 			c.Sample = kind + ": " + sample(w)
